@@ -86,10 +86,14 @@ LAYOUTS = {
     'map_deeper': ('/srv/build/a.min.js', '/srv/build/maps/a.min.js.map', '/srv/src/a.js'),
     'map_above': ('/srv/build/js/a.min.js', '/srv/build/a.min.js.map', '/srv/src/lib/a.js'),
     'relative': ('a.min.js', 'a.min.js.map', 'a.js'),
+    'relative_subdir': ('build/a.min.js', 'build/maps/a.min.js.map', 'src/a.js'),
     # names whose UTF-8 JSON text needs the characters + and / of the standard base64 alphabet in an inline map
     'nonascii': ('/srv/build/a~.min.js', '/srv/build/a.min.js.map', '/srv/src/\u043f\u0440\u0438~?.js'),
 }
+K_RELATIVE = 'write: relative stream names in different directories are left as they are, so the sourceMappingURL / file / sources do not designate the files'
 PROGRAM = 'var foo = function(bar) {\n  return bar + 1;\n};\n'
+# programs the parser must reject with its own syntax error (re-labelled with the stream name), whatever the error path
+BAD_TEXTS = ['var a = ;', "var s = 'abc\\", 'var r = /[/;', "var t = '\\x4';", '@', 'a = 1 /* open']
 PROGRAM_NONASCII = 'var \u043f\u0435\u0440\u0435\u043c = function(\u3042\u3044, \u00ff\u00fe) {\n  return \u3042\u3044 + \u00ff\u00fe;\n};\n'
 
 
@@ -158,8 +162,9 @@ def h_write(mods, out_kind, map_kind, layout, normalize_paths, nodes_kind, print
         mstream = ostream if map_kind == 'same' else (m.made[0] if map_kind == 'factory' else m)
 
         def rel(frm, to):
-            if normalize_paths and os.path.isabs(frm) and os.path.isabs(to):
-                return os.path.relpath(to, os.path.dirname(frm)).replace(os.sep, '/')
+            # both absolute, or both relative to the same (unknown) working directory: the relative path between them is defined
+            if normalize_paths and os.path.isabs(frm) == os.path.isabs(to):
+                return os.path.relpath(to, os.path.dirname(frm) or '.').replace(os.sep, '/')
             return to
         if map_kind == 'same':
             prefix = '\n//# sourceMappingURL=data:application/json;base64;charset=utf8,'
@@ -194,7 +199,7 @@ def h_read(mods, kind, bad):
     def harness():
         E = sx.E
         ctl = Ctl()
-        text = 'var a = ;' if bad else PROGRAM
+        text = BAD_TEXTS[bad - 1] if bad else PROGRAM
 
         def parser(t):
             ctl.tick('parse')
@@ -301,7 +306,7 @@ def main():
     tasks = []
     for out_kind in ('factory', 'open'):
         for map_kind in ('none', 'same', 'factory', 'open'):
-            for layout in (LAYOUTS if th else ('same_dir', 'map_deeper', 'relative', 'nonascii')):
+            for layout in (LAYOUTS if th else ('same_dir', 'map_deeper', 'relative', 'nonascii', 'relative_subdir')):
                 for npaths in (True, False):
                     for nodes_kind in (('node', 'list') if th else ('node',)):
                         for pk in (('pretty', 'minify') if th else ('pretty',)):
@@ -309,7 +314,7 @@ def main():
                                 continue
                             tasks.append(('write', (out_kind, map_kind, layout, npaths, nodes_kind, pk)))
     for kind in ('factory', 'open'):
-        for bad in (False, True):
+        for bad in range(len(BAD_TEXTS) + 1):
             tasks.append(('read', (kind, bad)))
     res = common.pmap(_task, tasks)
     from .. import replay as rp
@@ -328,6 +333,8 @@ def main():
         for msg, w in viols:
             fi = int(w.get('fault_index', -1)) if str(w.get('fault_index', '')).lstrip('-').isdigit() else MAXTICKS
             key = '%s: %s' % (kind, msg.split(' (fault')[0].split(': {')[0][:120])
+            if kind == 'write' and 'relative_subdir' in args:
+                key = K_RELATIVE
             if key in seen:
                 continue
             seen.add(key)
